@@ -154,12 +154,50 @@ class SuitObject(PrettyPrintHelperMixin):
             )
 
     @staticmethod
+    def validate_expansion(obj: Any, limit: int) -> None:
+        """Validate that the decoded object does not expand beyond the size of its encoding.
+
+        Every CBOR data item occupies at least one byte, so an object decoded from n bytes has at most n nodes unless
+        shared references (tags 28 and 29) repeat parts of it; serializing such an object again expands every
+        repetition, which can take time and memory exponential in the size of the input.
+        """
+        sizes: dict = {}
+        in_progress: set = set()
+
+        def count(item: Any) -> int:
+            if isinstance(item, cbor2.CBORTag):
+                children = [item.value]
+            elif isinstance(item, (list, tuple, set, frozenset)):
+                children = list(item)
+            elif hasattr(item, "items"):
+                children = [x for pair in item.items() for x in pair]
+            else:
+                return 1
+            if id(item) in sizes:
+                return sizes[id(item)]
+            if id(item) in in_progress:
+                raise ValueError("Cyclic reference in cbstr parsed object")
+            in_progress.add(id(item))
+            total = 1
+            for child in children:
+                total += count(child)
+                if total > limit:
+                    raise ValueError("Shared references expand the cbstr parsed object beyond the size of the input")
+            in_progress.discard(id(item))
+            sizes[id(item)] = total
+            return total
+
+        count(obj)
+
+    @staticmethod
     def deserialize_cbor(cbstr: bytes) -> Any:
         """Verify and deserialize cbor object."""
         # Ensure that cbor2.loads() will not consume all the available memory
         SuitObject.validate_cbor(cbstr)
         try:
-            return cbor2.loads(cbstr)
+            obj = cbor2.loads(cbstr)
+            SuitObject.validate_expansion(obj, len(cbstr))
+            return obj
         except ImportError as err:
             # Can occur due to possible incompatibilities in packages between virtual environment and system scope
             # (seen on Windows, where cbor2 was installed globally and in virtual environment)
